@@ -66,7 +66,7 @@ def loop_items(f):
             continue
         h = p.blocks[-1]
         src = layout.iter_source(f, h)
-        if src is not None and any(x[0] == 'agg' and (x[1].endswith('ops::Range') or x[1].endswith('ops::RangeInclusive')) for x in walk(src[2])):
+        if src is not None and any(x[0] == 'agg' and (x[1].endswith('ops::Range') or x[1].endswith('ops::RangeInclusive') or x[1].endswith('ops::RangeFrom')) for x in walk(src[2])):
             continue
         body = loops.get(h, set())
         nx = [d for d in p.cdecisions() if d[2][0] == 'discr' and is_call(d[2][1], '::next') and d[3] == 1 and d[1] in body]
